@@ -13,6 +13,8 @@ meaning of the `failed` flag of on_exit and of set_auto_restart):
  KILLTIME  an actor with one kill time K is not alive after K; if it dies before, something else killed it.
  CAUSE     an actor whose body did not return dies only at the date of: a kill / kill_all / host-off request that reaches
            it, its kill time, its own exit(), the daemon rule, a deadlock report.
+ ZOMBIE    (kernel monitor of the harness) no actor is left marked to die without being scheduled again: such an actor
+           never ends, so none of the clauses above can hold for it.
  KILL      the victims of a kill / kill_all / host-off request that returned to its issuer terminate at that date and run
            nothing after the request returned.
  SUSPEND   between the return of suspend(P) and the next resume(P) request P runs nothing (no call, no return); an exec of
@@ -40,7 +42,7 @@ def parse(out):
     evs = []
     for l in out.splitlines():
         t = l.split()
-        if not t or t[0] not in ("C", "T", "B", "Q", "R", "M", "X", "g", "G", "E", "Z", "DL", "END"):
+        if not t or t[0] not in ("C", "T", "B", "Q", "R", "M", "X", "g", "G", "E", "Z", "DL", "END", "ZB"):
             continue
         try:
             clk = float(t[1])
@@ -52,6 +54,21 @@ def parse(out):
 
 def same(a, b):
     return abs(a - b) <= TOL * max(1.0, abs(a), abs(b))
+
+
+def zombies_of(evs):
+    """ZB lines of actors that are never terminated afterwards"""
+    term = {int(e.f[0]) for e in evs if e.kind == "T"}
+    return [e for e in evs if e.kind == "ZB" and int(e.f[0]) not in term]
+
+
+def zombie_class(evs, z):
+    """'victim-created-in-the-same-round': the actor was created at the date of the kill and never returned from any call
+    (it was killed before it was first scheduled); 'victim-running' otherwise."""
+    v = int(z.f[0])
+    c = [e for e in evs if e.kind == "C" and int(e.f[0]) == v]
+    ran = any(e.kind == "R" and e.f[1] != "-1" and int(e.f[0]) == v for e in evs)
+    return "victim-created-in-the-same-round" if c and same(c[-1].clk, z.clk) and not ran else "victim-running"
 
 
 def check(out, report, count):
@@ -119,6 +136,21 @@ def check(out, report, count):
     def alive_at(pid, i):
         return pid in born and born[pid].i < i and (pid not in term or term[pid].i > i)
 
+    # ---------------------------------------------------------------- actors marked to die that the kernel will never schedule again
+    for z in zombies_of(evs):
+        v = int(z.f[0])
+        if v not in born:
+            continue
+        sources = sorted({"%s by actor %s" % (q.f[2], q.f[0]) for q, r in pairs
+                          if q.f[2] in ("kill", "killall", "hostoff") and same(q.clk, z.clk) and q.i < z.i})
+        report("C11:kill:never-terminated:%s" % zombie_class(evs, z),
+               "actor %d (created at %g) was killed at %g (%s) and is left marked to die without ever being scheduled again: it never runs its on_exit "
+               "callbacks (%d registered), its termination is never signalled%s%s"
+               % (v, born[v].clk, z.clk, ", ".join(sources) or "daemon rule / kill time / deadlock",
+                  len([e for e in evs if e.kind == "g" and int(e.f[0]) == v]) + len([e for e in evs if e.kind == "E" and int(e.f[0]) == v]),
+                  "" if v in bodyline and bodyline[v].i < z.i and bodyline[v].clk < z.clk else ", its body started after the kill and its first simcall was dropped",
+                  ", deadlock reported at the end of the run" if any(e.kind == "DL" for e in evs) else ""))
+        return feats
     # ---------------------------------------------------------------- actors that never terminate although a kill reached them
     for q, r in pairs:
         n = q.f[2]
@@ -304,6 +336,12 @@ def check(out, report, count):
                     armed.setdefault(pid, set()).add(float(q[0].f[3]))
         elif e.kind == "B" and float(e.f[3]) > e.clk:
             armed.setdefault(int(e.f[0]), set()).add(float(e.f[3]))
+    # requests that never returned to their issuer (suspended or killed in the round of the request) may have been served
+    maybe_armed = {}
+    for q, r in pairs:
+        if q.f[2] == "killtime" and r is None and float(q.f[3]) > q.clk:
+            maybe_armed.setdefault(int(q.f[0]), set()).add(float(q.f[3]))
+            count("killtime.request_without_return")
     deadlocks = [e for e in evs if e.kind == "DL"]
 
     def kill_requests(pid, before_i, clk):
@@ -317,7 +355,7 @@ def check(out, report, count):
                     why.append(n)
                 elif n == "hostoff" and host_of.get(pid) == int(q.f[3]):
                     why.append(n)
-        if any(same(k, clk) for k in armed.get(pid, ())):
+        if any(same(k, clk) for k in armed.get(pid, ())) or any(same(k, clk) for k in maybe_armed.get(pid, ())):
             why.append("killtime")
         if any(same(d.clk, clk) and d.i < before_i for d in deadlocks):
             why.append("deadlock")
